@@ -335,8 +335,7 @@ class Scheduler(Subject):
             ]
             service_api.uuid = new_uuid
 
-            if service_api.service.input_parameters:
-                service_api.input_parameters = copy.deepcopy(service_api.service.input_parameters)
+            service_api.input_parameters = copy.deepcopy(service_api.service.input_parameters)
 
             self.substitute_loop_indexes(service_api)
         elif self.generate_test_ids:
